@@ -51,9 +51,9 @@ func init() {
 				"not_yet_built": "Code 128 mod-103, Code 93 C/K, EAN-2 add-on parity",
 			}
 		},
-		Exhaustive: func(tier string) bool { return false },
-		Outside:    []string{"Code 128 / Code 93 checksum substitutions and EAN-2 add-on parity (no harness yet)", "reading a substituted symbol through the image path (C03)"},
-		Stubs:      []string{"mod-10 obligations decided by cvc5 --solve-bv-as-int=sum (z3 as second opinion in the portfolio)"},
+		Exhaustive:  func(tier string) bool { return false },
+		Outside:     []string{"Code 128 / Code 93 checksum substitutions and EAN-2 add-on parity (no harness yet)", "reading a substituted symbol through the image path (C03)"},
+		Stubs:       []string{"mod-10 obligations decided by cvc5 --solve-bv-as-int=sum (z3 as second opinion in the portfolio)"},
 		Assumptions: commonAssumptions,
 	}
 }
